@@ -44,7 +44,7 @@ func buildGraph(c *engine.C, o graphOpts) genGraph {
 	}
 	quote, unresolved, external, overload := 0, false, false, false
 	if o.Extras {
-		quote = c.Choose(4, "quote-in-name")
+		quote = c.Choose(6, "quote-in-name")
 		unresolved = c.Bool("unresolved-callee")
 		external = c.Bool("external-callee")
 		overload = n >= 2 && c.Bool("overload")
@@ -78,8 +78,8 @@ func buildGraph(c *engine.C, o graphOpts) genGraph {
 		if quote > 0 && i == 1%n {
 			// a quote; an escaped quote as in the literal receiver "say \"hi\""; two escaped quotes in a row. No name holds
 			// two backslashes in a row: DOT cannot tell a doubled backslash from two, and the reader takes a pair for one
-			m.Name = []string{"", "m\"" + fmt.Sprint(i), "m\\\"" + fmt.Sprint(i), "m" + fmt.Sprint(i) + "\\\"\\\"z"}[quote]
-			c.Tag([]string{"", "quote", "escaped-quote", "two-escaped-quotes"}[quote])
+			m.Name = []string{"", "m\"" + fmt.Sprint(i), "m\\\"" + fmt.Sprint(i), "m" + fmt.Sprint(i) + "\\\"\\\"z", "m\"名前\"" + fmt.Sprint(i), "mÜ" + fmt.Sprint(i)}[quote]
+			c.Tag([]string{"", "quote", "escaped-quote", "two-escaped-quotes", "quote-and-non-ascii", "non-ascii"}[quote])
 		}
 		ms[i] = m
 	}
